@@ -312,7 +312,7 @@ pub fn run_case(case: &Case, prefix: &Built) -> (Vec<(String, String)>, Info) {
                     gt: salt % 2 == 0,
                     creator: 1,
                     miner: 2,
-                    txs: if *with_txs { vec![TxSpec { payer: 2, payee: 3, amount_sel: 3000, fee: 1500, routers: vec![], with_path: false, max_inputs: 1 }] } else { vec![] },
+                    txs: if *with_txs { vec![TxSpec { payer: 2, payee: 3, amount_sel: 3000, fee: 1500, routers: vec![], with_path: false, max_inputs: 1, nft: false }] } else { vec![] },
                     bad_tx: None,
                     corrupt: None, back: None,
                 };
@@ -506,7 +506,7 @@ pub fn prefix() -> Built {
             gt: i % 2 == 0,
             creator: 1,
             miner: 2,
-            txs: vec![TxSpec { payer: (i % 3 + 1) as u8, payee: 0, amount_sel: 2000, fee: 1000, routers: vec![], with_path: false, max_inputs: 1 }],
+            txs: vec![TxSpec { payer: (i % 3 + 1) as u8, payee: 0, amount_sel: 2000, fee: 1000, routers: vec![], with_path: false, max_inputs: 1, nft: false }],
             bad_tx: None,
             corrupt: None, back: None,
         })
